@@ -221,7 +221,7 @@ fn one_execution(pr: Params, fails: &[Sym], ch: &mut Chooser) -> RunOut {
                         return;
                     }
                 }
-                if out.fibers > 1 + pr.m {
+                if out.fibers > pr.m.saturating_add(1) {
                     fail(out, "exec:fibers-exceed-bound", format!("{} executions started with max speculative count {}", out.fibers, pr.m));
                     return;
                 }
@@ -319,7 +319,7 @@ fn one_execution(pr: Params, fails: &[Sym], ch: &mut Chooser) -> RunOut {
                         evs.push(Ev::Complete(a, o));
                     }
                 }
-                if !timer_dead && out.ticks < pr.m + 3 {
+                if !timer_dead && out.ticks < pr.m.saturating_add(3) {
                     evs.push(Ev::Tick);
                 }
                 if evs.is_empty() {
@@ -503,8 +503,16 @@ fn main() {
             }
         }
     }
+    // "unlimited, bounded by the plan": huge max counts through SimpleSpeculativeExecutionPolicy (the plan ends the ticks)
+    for m in [usize::MAX, usize::MAX - 1, u32::MAX as usize, 1usize << 40] {
+        for idem in [false, true] {
+            for p in 0..=2 {
+                sweeps.push(Params { p, m, idem, pol: Policy::Default, mask: 0, alt: false });
+            }
+        }
+    }
     // the largest number of simultaneously running attempts the included sweeps can reach (vacuity guard below)
-    let want_in_flight = sweeps.iter().filter(|s| s.idem && s.mask == 0).map(|s| (1 + s.m).min(s.p) as u64).max().unwrap_or(0);
+    let want_in_flight = sweeps.iter().filter(|s| s.idem && s.mask == 0).map(|s| s.m.saturating_add(1).min(s.p) as u64).max().unwrap_or(0);
     let outcomes: Mutex<BTreeSet<(bool, String, usize, usize)>> = Mutex::new(BTreeSet::new());
     let mut capped = false;
     for pr in sweeps {
